@@ -4,8 +4,9 @@
     Main result (b = bins returned by first_fit, n = any number of bins of capacity C into which
     the values can be packed, in particular the optimum):
 
-      ff_ratio_17_strong :  10 * length b <= 17 * n + 12     (FF <= 17/10 OPT + 6/5)
-      ff_ratio_17        :  10 * length b <= 17 * n + 20     (the requested form, c = 2)
+      ff_ratio_17_strong :  10 * length b <= 17 * n + 9    (FF < 17/10 OPT + 1, i.e. FF <= ceil(17/10 OPT),
+                                                            the bound of GGJY 1976)
+      ff_ratio_17        :  10 * length b <= 17 * n + 20   (the requested form, c = 2)
 
     Weights, scaled by 10 C (so that "weight 1" is 10 C):
       W(a) = 12 a        if 6 a <= C
@@ -13,26 +14,28 @@
            = 12 a + C    if C < 3 a and 2 a <= C
            = 10 C        if C < 2 a.
 
-    Lemma 1 ([light_bin], [packable_wsum]): values in [0,C] with sum <= C have weight <= 17 C;
-      hence total weight <= 17 C n for any packing into n bins.
+    Lemma 1 ([light_bin], [light_bin_strict], [packable_wsum_strict]): values in [0,C] with sum <= C
+      have weight <= 17 C (and <= 17 C - 1 when C > 0); hence total weight <= (17 C - 1) n for any
+      packing into n bins.
       - no value above C/2: W(a) <= 15 a, so weight <= 15 C;
       - one value above C/2: the others sum to S < C/2 and for such lists
-        weight <= 12 S + max(0, min(6 S - C, C)) <= 6 C + C (induction on the list, [wsum_small]).
+        weight <= 12 S + max(0, min(6 S - C, C)) < 6 C + C (induction on the list, [wsum_small]).
     Lemma 2 ([heavy]): for bins in first-fit order (invariant [sfit] of FFDRatioProofs: no item fits
-      into an EARLIER bin at its final sum), 10 C m <= total weight + 12 C.  Induction over the
+      into an EARLIER bin at its final sum), 10 C m <= total weight + 10 C.  Induction over the
       bins carrying the coarseness alpha (= max over earlier bins of the free space; every item of
-      the remaining bins is >= alpha):
-        10 C |bins| <= weight(bins) + 12 (C - alpha).
-      For the first remaining bin (sum s; the next coarseness is max(alpha, C - s)):
-      - it holds a value above C/2: weight >= 10 C;
+      the remaining bins is >= alpha), with potential 10 C - W(alpha):
+        10 C |bins| <= weight(bins) + 10 C - W(alpha).
+      For the first remaining bin (sum s; the next coarseness is alpha' = max(alpha, C - s)):
+      - it holds a value above C/2: weight >= 10 C, and W is monotone;
       - one value v <= C/2 only: then every later item is above C/2, so every later bin weighs
-        >= 10 C ([heavy_big]) and W(v) >= 12 v >= 12 alpha closes the account;
-      - two or more values, all <= C/2: if 3 alpha > C each weighs >= 5 C; otherwise each weighs
-        >= 12 v + max(0, 6 alpha - C), so the bin weighs >= 12 s + 12 alpha - 2 C, and
-        12 ((C - s) - alpha) is paid by the increase of the coarseness.
+        >= 10 C ([heavy_big]), and W(v) >= W(alpha);
+      - two or more values v1, v2, ..., all <= C/2 and >= alpha:
+        10 C + W(alpha) <= W(v1) + W(v2) + 12 (s - v1 - v2) + W(alpha'), a piecewise linear fact.
 
     Hypotheses: items <> [] and 0 <= valueof x (as for the other packing theorems).  [0 < C] is not
-    needed: for C = 0 there is a single bin. *)
+    needed: for C = 0 there is a single bin.
+    Best-fit is NOT covered: [sfit] fails for best-fit, even up to reordering the bins (see the
+    comment at the end). *)
 From Prtpy Require Import Base.Prelude Model.Binner Model.Packing Spec.Partition
   Proofs.BaseLemmas Proofs.BinnerLemmas Proofs.PackingProofs Proofs.FFDRatioProofs
   Proofs.BCOptimalProofs.
@@ -215,14 +218,16 @@ Section Heavy.
       lia.
   Qed.
 
-  Lemma heavy C : 0 <= C -> forall (b : bins A) alpha, alpha <= C ->
+  (** Lemma 2, with the coarseness [alpha] as parameter: the potential is 10 C - W(alpha) *)
+  Lemma heavy C : 0 <= C -> forall (b : bins A) alpha,
     wf valueof b -> all_nonempty b -> sfit valueof C b ->
     Forall (fun y => 0 <= valueof y) (contents b) ->
     Forall (fun y => alpha <= valueof y) (contents b) ->
-    10 * C * Z.of_nat (length b) <= cw C b + 12 * (C - alpha).
+    10 * C * Z.of_nat (length b) <= cw C b + (10 * C - W C alpha).
   Proof.
-    intros HC. induction b as [|bn t IH]; intros alpha Hal Hw Hne Hsf Hnn Hge.
-    - cbn [length Z.of_nat]. unfold contents, lists. cbn [map concat]. rewrite wsum_nil. lia.
+    intros HC. induction b as [|bn t IH]; intros alpha Hw Hne Hsf Hnn Hge.
+    - cbn [length Z.of_nat]. unfold contents, lists. cbn [map concat]. rewrite wsum_nil.
+      pose proof (W_spec C alpha) as Hal. lia.
     - unfold wf in Hw. apply Forall_cons_iff in Hw. destruct Hw as [Hwb Hw].
       unfold all_nonempty in Hne. apply Forall_cons_iff in Hne. destruct Hne as [Hbn Hne].
       cbn [sfit] in Hsf. destruct Hsf as [Hs1 Hsf].
@@ -233,12 +238,16 @@ Section Heavy.
       unfold wf_bin in Hwb.
       assert (Hnn1' : Forall (fun a => 0 <= a) (map valueof (snd bn)))
         by (rewrite Forall_map; exact Hnn1).
-      pose proof (zsum_nonneg _ Hnn1') as Hs0. rewrite <- Hwb in Hs0.
       (* the induction hypothesis at the next coarseness *)
-      assert (Hnext : 10 * C * Z.of_nat (length t) <=
-                      cw C t + 12 * (C - Z.max alpha (C - fst bn))).
-      { apply IH; auto; [lia|].
-        rewrite Forall_forall in *. intros y Hy. specialize (Hs1 y Hy). specialize (Hge2 y Hy). lia. }
+      set (alpha' := Z.max alpha (C - fst bn)).
+      assert (Ha' : alpha <= alpha' /\ C - fst bn <= alpha' /\ (alpha' = alpha \/ alpha' = C - fst bn))
+        by (unfold alpha'; lia).
+      assert (Hnext : 10 * C * Z.of_nat (length t) <= cw C t + (10 * C - W C alpha')).
+      { apply IH; auto.
+        rewrite Forall_forall in *. intros y Hy. specialize (Hs1 y Hy). specialize (Hge2 y Hy).
+        unfold alpha'. lia. }
+      clearbody alpha'.
+      pose proof (W_spec C alpha) as Hal. pose proof (W_spec C alpha') as Hal'.
       destruct (Forall_Exists_dec (fun a => 2 * a <= C) (fun a => Z_le_dec (2 * a) C)
                   (map valueof (snd bn))) as [Hnb|Hbig].
       + destruct (snd bn) as [|x1 [|x2 rest]] eqn:Es; [congruence| |].
@@ -255,13 +264,13 @@ Section Heavy.
           apply Forall_cons_iff in Hnb. destruct Hnb as [Hx2 Hnb].
           apply Forall_cons_iff in Hge1. destruct Hge1 as [Ha1 Hge1].
           apply Forall_cons_iff in Hge1. destruct Hge1 as [Ha2 _].
-          apply Forall_cons_iff in Hnn1'. destruct Hnn1' as [_ Hnn1'].
-          apply Forall_cons_iff in Hnn1'. destruct Hnn1' as [_ Hnnr].
+          apply Forall_cons_iff in Hnn1'. destruct Hnn1' as [Hp1 Hnn1'].
+          apply Forall_cons_iff in Hnn1'. destruct Hnn1' as [Hp2 Hnnr].
           pose proof (zsum_nonneg _ Hnnr) as Hr0.
           pose proof (wsum_ge_12 C _ Hnb) as Hr12.
           rewrite !wsum_cons.
           pose proof (W_spec C (valueof x1)) as H1. pose proof (W_spec C (valueof x2)) as H2.
-          destruct (Z_lt_le_dec C (3 * alpha)) as [Hhi|Hlo]; lia.
+          lia.
       + (* an item above C/2 *)
         pose proof (wsum_big C _ HC Hnn1' Hbig) as Hwb10. lia.
   Qed.
@@ -274,7 +283,7 @@ Section FF17.
   Theorem ff_ratio_17_strong C (items : list A) (b : bins A) (n : nat) :
     items <> [] -> Forall (fun x : A => 0 <= valueof x) items ->
     first_fit valueof true C items = Ok b -> Packable C (map valueof items) n ->
-    (10 * length b <= 17 * n + 12)%nat.
+    (10 * length b <= 17 * n + 9)%nat.
   Proof.
     intros Hne Hnn Hff Hpack.
     pose proof (ff_sfit valueof C items b Hnn Hff) as Hsf.
@@ -291,10 +300,6 @@ Section FF17.
     (* n is positive *)
     assert (Hn : (1 <= n)%nat).
     { destruct n as [|n]; [|lia]. apply packable_zero in Hpack. apply map_eq_nil in Hpack. congruence. }
-    pose proof (heavy valueof C HC b 0 HC Hw Hnem Hsf Hnnb Hnnb) as Hheavy.
-    assert (Hlight : wsum C (map valueof items) <= 17 * C * Z.of_nat n).
-    { apply packable_wsum; [|exact Hpack]. rewrite Forall_map. exact Hnn. }
-    rewrite (wsum_perm C _ _ (Permutation_map valueof Hp)) in Hheavy.
     destruct (Z.eq_dec C 0) as [E0|Hpos].
     - (* capacity 0: a single bin *)
       destruct (le_lt_dec 2 (length b)) as [Hbig|Hsmall]; [|lia]. exfalso.
@@ -303,7 +308,12 @@ Section FF17.
       rewrite (wf_total valueof b Hw), (zsum_perm _ _ (Permutation_map valueof Hp)) in Hpair.
       pose proof (packable_total C _ n Hpack) as Htot. subst C. lia.
     - assert (HCpos : 0 < C) by lia.
-      assert (Hz : 10 * Z.of_nat (length b) <= 17 * Z.of_nat n + 12) by nia.
+      pose proof (heavy valueof C HC b 0 Hw Hnem Hsf Hnnb Hnnb) as Hheavy.
+      assert (Hlight : wsum C (map valueof items) <= (17 * C - 1) * Z.of_nat n).
+      { apply packable_wsum_strict; [exact HCpos| |exact Hpack]. rewrite Forall_map. exact Hnn. }
+      rewrite (wsum_perm C _ _ (Permutation_map valueof Hp)) in Hheavy.
+      pose proof (W_spec C 0) as HW0.
+      assert (Hz : 10 * Z.of_nat (length b) <= 17 * Z.of_nat n + 9) by nia.
       lia.
   Qed.
 
@@ -320,9 +330,27 @@ Section FF17.
   Corollary ff_ratio_17_minbins C (items : list A) (b : bins A) (n : nat) :
     items <> [] -> Forall (fun x : A => 0 <= valueof x) items ->
     first_fit valueof true C items = Ok b -> MinBins C (map valueof items) n ->
-    (10 * length b <= 17 * n + 12)%nat.
+    (10 * length b <= 17 * n + 9)%nat.
   Proof. intros Hne Hnn Hff [Hpack _]. apply (ff_ratio_17_strong C items b n); assumption. Qed.
 End FF17.
+
+(** Best-fit: the invariant [sfit] used by [heavy] fails, and no reordering of the bins repairs
+    it.  With C = 100 and items 20, 81, 5, 70, 4 best-fit returns [20;70;4] (94) and [81;5] (86):
+    the item 5 of the second bin fits into the first bin (94 + 5 <= 100) and the item 4 of the
+    first bin fits into the second (86 + 4 <= 100).  The classical best-fit proof is different and
+    is not attempted here. *)
+Example bf_no_sfit_order :
+  best_fit (fun v : Z => v) true 100 [20; 81; 5; 70; 4] = Ok [(94, [20; 70; 4]); (86, [81; 5])].
+Proof. vm_compute. reflexivity. Qed.
+
+(** a run of first-fit and the weights involved: 3 bins, optimum 2 *)
+Example ff_run_example :
+  first_fit (fun v : Z => v) true 60 [31; 20; 9; 31; 20; 9] =
+    Ok [(60, [31; 20; 9]); (60, [31; 20; 9])] /\
+  first_fit (fun v : Z => v) true 60 [9; 9; 20; 20; 31; 31] =
+    Ok [(58, [9; 9; 20; 20]); (31, [31]); (31, [31])] /\
+  wsum 60 [9; 9; 20; 20; 31; 31] = 2016.
+Proof. vm_compute. repeat split. Qed.
 
 Print Assumptions ff_ratio_17_strong.
 Print Assumptions ff_ratio_17.
